@@ -129,7 +129,7 @@ def eval_limit_signal(case):
     N, fs, t0 = case
     times = t0 + np.arange(N) / fs
     sig = np.arange(N) + 100.
-    grid = [None] + [t0 + x / 2 / fs for x in range(-1, 2 * N + 2) if t0 + x / 2 / fs >= 0]
+    grid = [None] + sorted({t0 + x / 2 / fs for x in range(-1, 2 * N + 2) if t0 + x / 2 / fs >= 0} | {0.0, .5})
     nev, nt = 0, False
     outs = []
     for start, stop in itertools.product(grid, grid):
@@ -223,7 +223,7 @@ def eval_flatten(case):
 def spaces(tier, seed):
     q = tier == 'quick'
     out = [LimitTables(10 if q else 12, [1, 4, 10])]
-    ls = [(N, fs, t0) for N in range(1, 9 if q else 11) for fs in (1, 4, 10) for t0 in (0, 1, 2.5)]
+    ls = [(N, fs, t0) for N in range(1, 9 if q else 11) for fs in (1, 4, 10) for t0 in (0, 1, 2.5, -1, -2.5)]
     out.append(ListSpace('limit_signal', ls, eval_limit_signal,
                          describe='every time axis t0 + arange(N)/fs x full (start, stop) grid incl. None'))
     al = S.alphabet(4 if q else 6)
